@@ -133,7 +133,7 @@ func refAST(sb *strings.Builder, n *model.Node, key string, shortcut bool, depth
 	case model.KArray:
 		token = "array"
 	case model.KRef:
-		token, value = "reference", strings.Join(n.Refs, " | ")
+		token, value = "reference", n.RefText()
 	default:
 		token, value = refTokenOfLit(n.Lit)
 	}
@@ -241,6 +241,27 @@ func c16Run(c *mon.Ctx, unit int) {
 				if n.Note == "" && r.Bool() {
 					n.Note = "the note"
 				}
+			}
+			// a union written with other blanks around the bars, or declaring {type: "mixed"} itself
+			if n.Kind == model.KRef && len(n.Refs) > 1 && n.Rule("or") == nil {
+				if r.Chance(1, 5) {
+					n.RefSep = mon.Pick(r, []string{"|", " |", "| ", "  |  ", "\t|\t"})
+				}
+				if n.Rule("type") == nil && r.Chance(1, 8) {
+					n.Rules = append(n.Rules, model.RStr("type", "mixed"))
+				}
+			}
+			// notes beginning / ending with white space that is not an ASCII blank (kept as written)
+			if n.Note != "" && r.Chance(1, 5) {
+				if r.Bool() {
+					n.Note = "\u00a0" + n.Note
+				} else {
+					n.Note += mon.Pick(r, []string{"\u3000", "\u00a0", "\u2003"})
+				}
+			}
+			// rule-free strings spelled with escapes the decoder must take one at a time
+			if n.Kind == model.KString && len(n.Rules) == 0 && r.Chance(1, 8) {
+				n.Lit = mon.Pick(r, []string{`"caf\ud83d\u00e9"`, `"\ud800\u0041"`, `"a\udc00\u0062"`, `"\ud83d\ude00\u00e9"`})
 			}
 			// a QUOTED key that looks like a type name is an ordinary property
 			for _, p := range n.Props {
